@@ -32,6 +32,17 @@ var QueryGroups = []struct{ Name, Query string }{
 	{"Q state", `state = "Kigali City"`},
 	{"Q and", `gender = F AND age > 18`},
 	{"Q or", `name = "Bob" OR language = fra`},
+	// properties with several values under != (true only if every value differs), a second scheme,
+	// negations on fields, the tokenized name match and a nested combination
+	{"Q nottel", `tel != +12065551212`},
+	{"Q noturn", `urn != "+12065551212"`},
+	{"Q twann", `twitter = ann`},
+	{"Q notgender", `gender != F`},
+	{"Q notage", `age != 30`},
+	{"Q namelike", `name ~ ann`},
+	{"Q nested", `(name = "Bob" OR language = fra) AND tel != ""`},
+	// a calendar-day comparison: its answer depends on the timezone in force
+	{"Q createdday", `created_on = 2020-01-01`},
 }
 
 func QGroupUUID(i int) string { return world.UUID(fmt.Sprintf("qgroup-%d", i)) }
